@@ -377,7 +377,8 @@ def glue(p, ab, what, k):
         core.assume(((y * y - (x * x * x + a * x + b)) % p) == 0)
         H.inp("p", p); H.inp("a", a); H.inp("b", b); H.inp("what", what); H.inp("k", list(k) if isinstance(k, tuple) else k)
         H.inp("P", [x, y, z])
-        P = ec.PointJacobi(curve, x * z * z % p, y * z * z * z % p, z, N if what.endswith("order") else None)
+        P = ec.PointJacobi(curve, x * z * z % p, y * z * z * z % p, z,
+                           N if what.endswith(("order", "gen")) else None, what.endswith("gen"))
         old = models.INVERSE_HOOK
         models.INVERSE_HOOK = lambda v, m: _inv_tab(v % m, m)
         try:
@@ -452,6 +453,9 @@ def jobs(tier, seed):
                 continue
             js.append(Job("glue/p%d/mul/k%d" % (p, k), "harness.c07:glue", p=p, ab=ab, what="mul", k=k))
             js.append(Job("glue/p%d/mulorder/k%d" % (p, k), "harness.c07:glue", p=p, ab=ab, what="mul_order", k=k))
+            if k in (3, N - 1, N + 1) or tier != "quick":
+                # lazily built table of a generator handed over in an arbitrary scaling
+                js.append(Job("glue/p%d/mulgen/k%d" % (p, k), "harness.c07:glue", p=p, ab=ab, what="mul_gen", k=k))
         for (ka, t, kb) in ((1, 1, 1), (3, 1, -3), (-2, 1, 5), (2, -1, 3), (-8, 1, -6), (-9, 1, -7), (3, 2, 2), (0, 1, 4), (5, 1, 0)):
             if tier == "quick" and (ka, t, kb) not in ((3, 1, -3), (2, -1, 3), (-8, 1, -6), (3, 2, 2)):
                 continue
@@ -578,7 +582,8 @@ def replay_glue(inp):
     pts = eg.curve_points(p, a, b)
     N = len(pts) + 1
     curve = ec.CurveFp(p, a, b, 1)
-    P = ec.PointJacobi(curve, x * z * z % p, y * z ** 3 % p, z, N if what.endswith("order") else None)
+    P = ec.PointJacobi(curve, x * z * z % p, y * z ** 3 % p, z,
+                       N if what.endswith(("order", "gen")) else None, what.endswith("gen"))
     if what.startswith("mul_add"):
         ka, t, kb = k
         Q = P if t == 1 else (-P if t == -1 else P.double())
